@@ -10,7 +10,7 @@ TRUSTED = [
 ]
 ASSUME = [
     "the groups are modules over the prime scalar field and the pairing is bilinear (IBM/mathlib + the curve library); hashing to the field / to G1 is a function",
-    "parties are numbered 1..n as in every shipped configuration: the prover uses a signer's party identifier as its evaluation point, the DKG uses positions 1..n (observation: other identifier sets disagree)",
+    "a party's evaluation point is its position in the party list + 1, in the DKG and (since fix F31, e1370e5) in the prover; party identifiers are arbitrary (one run in three draws them from the corners of the 16-bit range)",
     "the key sharing comes from the DKG (C05/C18): each of x, y_i is shared by a polynomial of degree < t",
 ]
 
